@@ -8,5 +8,6 @@ SInit == Init /\ act = "init"
 SNext == \/ \E a \in Apps : AppNext(a) /\ act' = "app" \o ToString(a)
          \/ RANext /\ act' = "ra"
          \/ ENext /\ act' = "eng"
+         \/ GPUNext /\ act' = "gpu"
 SSpec == SInit /\ [][SNext]_<<vars, act>>
 =============================================================================
